@@ -376,8 +376,9 @@ def c08_on_fatal(vc, spec, res, c, recs):
 register("C08", title="output stream next-message lookup", pkg="./internal/outputstream",
          parts=[{"name": "outputstream_shim", "test": "^TestVerifC08$", "overlay_hook": c08_overlay,
                  "children": {"quick": 16, "thorough": 16}, "cases": {"quick": 25, "thorough": 250}},
-                {"name": "outputstream_real", "test": "^TestVerifC08Real$", "race": True, "on_fatal": c08_on_fatal,
+                {"name": "outputstream_real", "test": "^TestVerifC08Real$", "race": True, "on_fatal": c08_on_fatal, "may_die": True,
                  "children": {"quick": 4, "thorough": 16}, "cases": {"quick": 3, "thorough": 20}}],
+         post_run=race_post_run("internal/outputstream", "data race inside the output stream while readers and writers use it concurrently: a lookup can run on a half-updated cache or list"),
          timeout={"quick": 400, "thorough": 2400}, level="exploration",
          rule="layer 1: seeded bounded programs (mutator adding ids in increasing order / deleting the oldest or a missing id, 1-2 GetNext readers "
               "following the stream, Get, InterruptGetNext, cancel) run against the real outputstream.go compiled against a cooperative scheduler "
